@@ -149,8 +149,15 @@ class Ctx:
         log("[%s] %s" % (self.pid, json.dumps(kw, ensure_ascii=False)[:600]))
 
     # ---- M: model-internal checking
+    def scaled(self, timeout):
+        """Stage timeouts are infrastructure guards (a stage that exceeds one is an InfraError, never a verdict): generous, and
+        scalable for slow or shared machines through VERIF_TIMEOUT_FACTOR."""
+        f = float(os.environ.get("VERIF_TIMEOUT_FACTOR", "1"))
+        return int(timeout * f * (1.0 if self.quick else 2.5))
+
     def model_check(self, module, cfg, tag=None, timeout=1500, workers=None, xmx="6g", simulate=None, depth=None,
                     env=None):
+        timeout = self.scaled(timeout)
         tag = tag or os.path.splitext(os.path.basename(cfg))[0]
         cmd = tlc_cmd(os.path.join(TLA, module), os.path.join(TLA, cfg), workers=workers, xmx=xmx,
                       simulate=simulate, depth=depth, seed=self.seed if simulate else None,
@@ -207,6 +214,7 @@ class Ctx:
     # ---- A: spec -> code replay.  TLC prints CASE lines, the harness replays them.
     def replay(self, module, cfg, harness_bin, harness_args=(), tag=None, timeout=1500, workers=None, xmx="8g",
                simulate=None, depth=None, env=None, tlc_extra=None, xss="32m"):
+        timeout = self.scaled(timeout)
         tag = tag or os.path.splitext(os.path.basename(cfg))[0]
         out = self.path("sum-%s.json" % tag)
         cmd = tlc_cmd(os.path.join(TLA, module), os.path.join(TLA, cfg), workers=workers, xmx=xmx,
@@ -254,6 +262,7 @@ class Ctx:
 
     # ---- TLC-generated cases written to a file (input of recorders)
     def generate(self, module, cfg, out_path, tag=None, timeout=1500, xmx="8g", xss="64m", every=1):
+        timeout = self.scaled(timeout)
         tag = tag or "gen-" + os.path.splitext(os.path.basename(cfg))[0]
         cmd = tlc_cmd(os.path.join(TLA, module), os.path.join(TLA, cfg), xmx=xmx, metadir=self._meta(tag), xss=xss)
         t = time.time()
@@ -277,6 +286,7 @@ class Ctx:
 
     # ---- direct harness run (recorders, fuzz-style drivers fed by files)
     def run_harness(self, harness_bin, harness_args=(), tag="run", timeout=1500, stdin_path=None, env=None):
+        timeout = self.scaled(timeout)
         out = self.path("sum-%s.json" % tag)
         e = dict(os.environ)
         if env:
@@ -322,6 +332,7 @@ class Ctx:
 
     # ---- B: code -> spec trace validation
     def validate_trace(self, trace_path, module, cfg, tag=None, timeout=1500, n_events=None, n_traces=1, xmx="4g"):
+        timeout = self.scaled(timeout)
         """Runs TLC on a Trace*.tla spec over a recorded ndjson trace.
         Accepted  <=> TLC exit 0 (POSTCONDITION TraceAccepted held, all invariants held).
         Returns (accepted, detail)."""
